@@ -186,9 +186,10 @@ fn path_ty(qself: &Option<syn::QSelf>, p: &syn::Path) -> Option<String> {
     match qself {
         None => Some(format!("(path {} {})", b(p.leading_colon.is_some()), segs(p.segments.iter())?)),
         Some(qs) => {
-            if qs.as_token.is_none() || qs.position == 0 || qs.position >= p.segments.len() {
-                return no(line!()); // `<T>::Assoc`: the model has no such form
+            if qs.as_token.is_none() != (qs.position == 0) || qs.position >= p.segments.len() {
+                return no(line!());
             }
+            // (`<T>::Assoc`, the path without a trait: no trait segments)
             Some(format!(
                 "(qpath {} {} {} {})",
                 ty(&qs.ty)?,
